@@ -168,7 +168,8 @@ impl UintVecMin0 {
     /// More efficient than calling `get()` twice due to reduced bounds checking
     #[inline]
     pub fn get2(&self, idx: usize) -> [usize; 2] {
-        assert!(idx + 1 < self.size, "Index {} out of bounds for get2", idx);
+        // `idx < self.size` first: idx + 1 wraps to 0 for usize::MAX in release builds and would pass
+        assert!(idx < self.size && idx + 1 < self.size, "Index {} out of bounds for get2", idx);
         assert!(self.bits <= 58, "Use BigUintVecMin0 for >58 bits");
         [self.fast_get_internal(idx), self.fast_get_internal(idx + 1)]
     }
